@@ -864,7 +864,30 @@ def check_filters(ctx: Ctx, out: Outcome, model, label: str, state: str, fcases:
 
 
 EDIT_KINDS = ("create", "child-delete", "child-assign", "attr-append", "attr-remove", "attr-del", "attr-assign",
-              "link-remove", "link-del", "link-assign", "roletag-replace", "roletag-del", "backref-second-referrer")
+              "link-remove", "link-del", "link-assign", "roletag-replace", "roletag-del", "backref-second-referrer", "create-rejected")
+
+
+_NESTED: dict = {}
+
+
+def nested_creatable(cls) -> list:
+    """Single-valued child relations of `cls` that accept a NewObject at creation time: (attribute, type hint)."""
+    from capellambse.model import _descriptors as D
+
+    if cls not in _NESTED:
+        found = []
+        for n in dir(cls):
+            if n.startswith("_"):
+                continue
+            acc = getattr(cls, n, None)
+            if type(acc) is D.RoleTagAccessor and acc.aslist is None:
+                # a role without declared classes takes any element: a plain value class serves as the nested child
+                found.append((n, acc.classes[0].__name__ if acc.classes else "LiteralNumericValue"))
+            elif type(acc) is D.DirectProxyAccessor and acc.aslist is None and len(acc.xtypes) == 1 and not acc.rootelem \
+                    and getattr(acc.class_, "__name__", "") not in ("ModelElement", ""):
+                found.append((n, acc.class_.__name__))
+        _NESTED[cls] = found
+    return _NESTED[cls]
 
 
 def edit_candidates(model, objs: list) -> dict:
@@ -899,6 +922,8 @@ def edit_candidates(model, objs: list) -> dict:
                         continue
                     if len(acc.xtypes) == 1 and not acc.rootelem:
                         cands["create"].append((o, n))
+                        if nested_creatable(acc.class_):
+                            cands["create-rejected"].append((o, n))
                     v = getattr(o, n)
                     if isinstance(v, ElementList) and len(v) and not acc.rootelem:
                         if any(len(c._element) == 0 for c in v):
@@ -987,6 +1012,18 @@ def apply_edit(kind: str, o, n: str, rng, objs: list, serial: int) -> bool:
         setattr(o, n, NewObject(rng.choice(others).__name__))
     elif kind == "roletag-del":
         delattr(o, n)
+    elif kind == "create-rejected":
+        # a creation that is refused *after* nested children were built: nothing of it may remain visible to queries
+        nested = nested_creatable(acc.class_)
+        kw = {"name": f"verif-rejected-{serial}"}
+        for a_, hint in rng.sample(nested, min(len(nested), 2)):
+            kw[a_] = NewObject(hint)
+        kw["verif_no_such_attribute"] = 1
+        try:
+            getattr(o, n).create(**kw)
+        except Exception:  # noqa: BLE001  (the refusal is the point)
+            return True
+        return True
     elif kind == "backref-second-referrer":
         from capellambse.model import _descriptors as D
 
